@@ -64,7 +64,16 @@ class MultiAgentProblemsConverter:
             combined_problem.goal_state_predicates = list(
                 set(combined_problem.goal_state_predicates)
             )
-            combined_problem.goal_state_fluents.update(agent_problem.goal_state_fluents)
+            # numeric goals are compared by their content: a goal shared by several agents is kept once.
+            combined_numeric_goals = {
+                goal.to_pddl() for goal in combined_problem.goal_state_fluents
+            }
+            for numeric_goal in agent_problem.goal_state_fluents:
+                if numeric_goal.to_pddl() in combined_numeric_goals:
+                    continue
+
+                combined_problem.goal_state_fluents.add(numeric_goal)
+                combined_numeric_goals.add(numeric_goal.to_pddl())
 
         return combined_problem
 
